@@ -22,6 +22,7 @@ def _run_check(cmd, **kw):
 
 
 def one(patch):
+    patch = os.path.abspath(patch)
     tmp = tempfile.mkdtemp(prefix="fsvneut.", dir="/var/tmp")
     try:
         shutil.copytree("/repo/include", os.path.join(tmp, "include"))
